@@ -490,7 +490,8 @@ class CoreCheck:
             runs.append(("Buffers_sim.cfg", dict(workers=1, simulate=f"num={walks}", depth=20,
                                                  seed=self.seed if walk_seed is None else walk_seed)))
         for cfg, kw in runs:
-            r = L.run_tlc("Buffers", cfg, self.wd, timeout=600, **({"workers": 4} | kw))
+            # one worker: every exported behaviour is one complete PrintT line
+            r = L.run_tlc("Buffers", cfg, self.wd, timeout=600, **({"workers": 1} | kw))
             if r["violated"]:
                 p = L.save_replay(self.pid, f"{cfg}-tlc-counterexample.txt", r["out"][-20000:])
                 self.v.violation(p, f"TLC: the buffer design violates the clean-slate invariants in {cfg}")
